@@ -72,6 +72,11 @@ CHECKS['C10'] = ('exploration', '§5 C10',
     'Establishes "no enumerated case exceeds the budget", not termination in general; memory-hungry cases run only with the size limit; timing other than "already elapsed" is not explored (Instant::now is not behind a seam).',
     'bounded-exhaustive enumeration of pipelines and adversarial arguments under a watchdog')
 
+CHECKS['C12'] = ('exploration', '§5 C12',
+    'Every token string of <=3 tokens over a 51-token alphabet taken from the grammar (140k texts; thorough: all 6.8M strings of 4 tokens through the public parser, and a compilation scope for every one that parses); every numeric-literal spelling of <=5/6 characters over {0,1,9,_,.,e,E,-,x,b,a,f} plus digit runs to 400, hex runs to 140, exponents to +-400 (accepted literals are evaluated and compared with Python\'s reading; unrepresentable ones must be compile errors); every single-token deletion, duplication, replacement by 14 tokens and adjacent swap of the shipped scripts and book examples (quick: the 40 shortest scripts and 25 shortest examples); bracket / operator / type / lambda / f-string nesting at depths 1..64; programs whose evaluation would print, loop, allocate without bound or fail. Every chunk is compiled twice in separate processes: no panic, no hang, a rendered non-empty error, writer/clock/RNG untouched, identical verdicts and error texts.',
+    'Token strings are joined by single spaces, mutations are single-point; determinism is checked between identical feed histories in two processes; error texts are only compared between runs.',
+    'bounded-exhaustive enumeration of source texts with a totality / effect-freedom / determinism oracle')
+
 NA = {
 }
 
